@@ -9,6 +9,7 @@ Local Open Scope nat_scope.
 
 Section Free.
 Variable rc : bool.
+Context {P : Z -> Prop} {st : bool}.
 
 Definition tris_in (g : sgraph) (tris : list nat) : Prop :=
   Forall (fun o => exists f, tri_node g f o) tris.
@@ -21,22 +22,27 @@ Proof.
 Qed.
 
 Lemma add_free_tail occ root : root <> 0 -> forall fs s root' s',
-  tables_ok s -> Forall (fun f => 1 <= f) fs -> sg_label (ls_g s) root = Some GAnd ->
+  tables_ok P st s -> Forall (fun f => 1 <= f /\ @PF P f) fs -> sg_label (ls_g s) root = Some GAnd ->
   add_free rc occ fs root s = Some (root', s') ->
-  root' = root /\ tables_ok s' /\ ext (ls_g s) (ls_g s') [root] /\
-  exists tris, sg_out (ls_g s') root = tris ++ sg_out (ls_g s) root /\ tris_in (ls_g s') tris.
+  root' = root /\ tables_ok P st s' /\ ext (ls_g s) (ls_g s') [root] /\
+  (exists tris, sg_out (ls_g s') root = tris ++ sg_out (ls_g s) root /\ tris_in (ls_g s') tris /\
+     Forall2 (fun f o => lookup_nat (ls_tri s') f = Some o) (rev (filter (fun i => negb (mem i occ)) fs)) tris) /\
+  lprov s s' [] /\ tri_grow s s'.
 Proof.
   intros Hr0. induction fs as [|i r IH]; intros s root' s' Hok Hfs Hlr H; cbn [add_free] in H.
   - injection H as <- <-. split; [reflexivity|]. split; [exact Hok|]. split; [apply ext_refl|].
-    exists []. split; [reflexivity|constructor].
-  - inversion Hfs as [|? ? Hi Hr]; subst.
-    destruct (mem i occ); [now apply IH|].
+    split; [exists []; split; [reflexivity|split; constructor]|split; [apply lprov_refl|apply tri_grow_refl]].
+  - inversion Hfs as [|? ? [Hi Hpi] Hr]; subst.
+    cbn [filter]. destruct (mem i occ); [now apply IH|]. cbn [negb].
     apply Nat.eqb_neq in Hr0 as E0. rewrite E0 in H.
     destruct (add_literal_node rc i root s) as [s2|] eqn:E2; [|discriminate].
-    destruct (add_literal_node_spec rc i root s s2 Hok Hi Hlr E2) as [Hok2 [He2 [_ [o [Ho [Hto _]]]]]].
-    destruct (IH s2 root' s' Hok2 Hr (ext_label_some _ _ _ _ _ He2 Hlr) H) as [-> [Hok' [He' [tris [Ht1 Ht2]]]]].
+    destruct (add_literal_node_spec rc i root s s2 Hok Hi Hpi Hlr E2) as [Hok2 [He2 [_ [o [Ho [Hto [_ Hlk]]]]]]].
+    destruct (IH s2 root' s' Hok2 Hr (ext_label_some _ _ _ _ _ He2 Hlr) H) as [-> [Hok' [He' [[tris [Ht1 [Ht2 Ht3]]] [Pr Gr]]]]].
+    destruct (add_literal_node_S rc _ _ _ _ E2) as [P2 G2].
     split; [reflexivity|]. split; [exact Hok'|]. split; [exact (ext_trans _ _ _ _ He2 He')|].
+    split; [|split; [exact (lprov_trans _ _ _ [] [] P2 Pr Gr)|exact (tri_grow_trans _ _ _ G2 Gr)]].
     exists (tris ++ [o]). split; [rewrite Ht1, Ho, <- app_assoc; reflexivity|].
+    split; [|cbn [rev]; apply Forall2_app; [exact Ht3|repeat constructor; now apply Gr]].
     apply Forall_app. split; [exact Ht2|]. constructor; [|constructor]. exists i.
     apply (tri_node_ext _ _ [root] i o He'); [|exact Hto].
     intros [<-|[]]. destruct Hto as [_ [Hl _]]. rewrite (ext_label_some _ _ _ _ _ He2 Hlr) in Hl. discriminate.
@@ -49,41 +55,63 @@ Definition free_result (s : lstate) (root' : nat) (s' : lstate) : Prop :=
    ext (ls_g s) (ls_g s') [] /\
    exists tris, sg_out (ls_g s') root' = tris ++ [0] /\ tris_in (ls_g s') tris).
 
+(* the features of the triangles below the new root: those of fs that are not in occ *)
+Definition free_feats (occ fs : list nat) (root' : nat) (s' : lstate) : Prop :=
+  root' = 0 \/
+  exists tris, sg_out (ls_g s') root' = tris ++ [0] /\
+    Forall2 (fun f o => lookup_nat (ls_tri s') f = Some o) (rev (filter (fun i => negb (mem i occ)) fs)) tris.
+
 Lemma add_free_spec occ : forall fs s root' s',
-  tables_ok s -> sg_alive (ls_g s) 0 = true -> Forall (fun f => 1 <= f) fs ->
-  add_free rc occ fs 0 s = Some (root', s') -> tables_ok s' /\ free_result s root' s'.
+  tables_ok P st s -> sg_alive (ls_g s) 0 = true -> Forall (fun f => 1 <= f /\ @PF P f) fs ->
+  add_free rc occ fs 0 s = Some (root', s') ->
+  tables_ok P st s' /\ free_result s root' s' /\ lprov s s' [root'] /\ tri_grow s s' /\ free_feats occ fs root' s'.
 Proof.
   induction fs as [|i r IH]; intros s root' s' Hok H0 Hfs H; cbn [add_free] in H.
-  - injection H as <- <-. split; [exact Hok|now left].
-  - inversion Hfs as [|? ? Hi Hr]; subst.
-    destruct (mem i occ); [now apply IH|]. cbn [Nat.eqb] in H.
+  - injection H as <- <-. split; [exact Hok|]. split; [now left|].
+    split; [apply (lprov_weaken _ _ []); [intros ? []|apply lprov_refl]|split; [apply tri_grow_refl|now left]].
+  - inversion Hfs as [|? ? [Hi Hpi] Hr]; subst.
+    unfold free_feats. cbn [filter]. destruct (mem i occ); [now apply IH|]. cbn [Nat.eqb negb] in *.
     destruct (add_node rc GAnd (ls_g s)) as [x g1] eqn:Ha.
     destruct (ls_add_edge x 0 (with_g s g1)) as [s1|] eqn:E1; [|discriminate]. cbn [option_map] in H.
     destruct (add_literal_node rc i x s1) as [s2|] eqn:E2; [|discriminate].
-    destruct Hok as [[HI Hl Hp] Ht].
+    destruct Hok as [[HI Hl Hp Hj Hsr] Ht].
     pose proof (add_node_fresh rc _ _ _ _ HI Ha) as Hfresh.
     pose proof (add_node_label_new rc _ _ _ _ HI Ha) as Hlx1.
     pose proof (add_node_no_out rc _ _ _ _ HI Ha) as Hox1.
     pose proof (add_node_ext rc _ _ _ _ [x] HI Ha) as He01.
     assert (Hxd : sg_alive (ls_g s) x = false) by (unfold sg_alive; now rewrite Hfresh).
     assert (Hx0 : x <> 0) by (intros ->; congruence).
-    assert (Hc0 : core_ok (with_g s g1)).
+    assert (Hc0 : core_ok P st (with_g s g1)).
     { constructor; cbn [with_g ls_g ls_lits ls_tri].
       - apply (add_node_Inv rc _ _ _ _ HI Ha).
       - intros l z Hz. apply (ext_label_some _ _ _ _ _ He01). now apply Hl.
       - intros z l Hz. destruct (Nat.eq_dec z x) as [->|Hzx]; [congruence|].
-        rewrite (add_node_label_old rc _ _ _ _ Ha z Hzx) in Hz. now apply (Hp z). }
-    destruct (ls_add_edge_core x 0 (with_g s g1) s1 [x] Hc0 (or_introl eq_refl) E1) as [Hc1 [He1 [Htri1 [_ Ho1]]]].
+        rewrite (add_node_label_old rc _ _ _ _ Ha z Hzx) in Hz. now apply (Hp z).
+      - intros z l Hz. destruct (Nat.eq_dec z x) as [->|Hzx]; [congruence|].
+        rewrite (add_node_label_old rc _ _ _ _ Ha z Hzx) in Hz. now apply (Hj z).
+      - intros Hst. exact (add_node_srcs rc _ _ _ _ HI Ha (Hsr Hst)). }
+    destruct (ls_add_edge_core x 0 (with_g s g1) s1 [x] Hc0 (or_introl eq_refl) (fun _ => gate_and _ _ Hlx1) E1) as [Hc1 [He1 [Htri1 [_ Ho1]]]].
     cbn [with_g ls_g ls_tri] in He1, Htri1, Ho1.
     pose proof (ext_trans _ _ _ _ He01 He1) as He01'.
     assert (Ht1 : tris_ok s1).
     { intros f o Hfo. rewrite Htri1 in Hfo. apply (tri_node_ext _ _ [x] f o He01'); [|now apply Ht].
       intros [<-|[]]. destruct (Ht f x Hfo) as [_ [Hlo _]]. congruence. }
     assert (Hlx : sg_label (ls_g s1) x = Some GAnd) by exact (ext_label_some _ _ _ _ _ He1 Hlx1).
-    destruct (add_literal_node_spec rc i x s1 s2 (conj Hc1 Ht1) Hi Hlx E2) as [Hok2 [He2 [_ [o [Ho [Hto _]]]]]].
+    destruct (add_literal_node_spec rc i x s1 s2 (conj Hc1 Ht1) Hi Hpi Hlx E2) as [Hok2 [He2 [_ [o [Ho [Hto [_ Hlk]]]]]]].
     destruct (add_free_tail occ x Hx0 r s2 root' s' Hok2 Hr (ext_label_some _ _ _ _ _ He2 Hlx) H)
-      as [-> [Hok' [He' [tris [Hr1 Hr2]]]]].
-    split; [exact Hok'|]. right.
+      as [-> [Hok' [He' [[tris [Hr1 [Hr2 Hr3]]] [Pr Gr]]]]].
+    destruct (ls_add_edge_S _ _ _ _ E1) as [L1 T1]. destruct (add_literal_node_S rc _ _ _ _ E2) as [P2 G2].
+    assert (P01 : lprov s s1 [x]).
+    { intros y t Hy. rewrite L1 in Hy. cbn [with_g ls_g] in Hy.
+      destruct (add_node_label_cases rc _ _ _ _ _ _ Ha Hy) as [[-> ->]|[_ Hy0]]; [|now left].
+      right. right. right. split; [reflexivity|now left]. }
+    assert (G01 : tri_grow s s1) by (apply tri_grow_eq; exact T1).
+    split; [exact Hok'|]. split; [|split; [|split; [exact (tri_grow_trans _ _ _ (tri_grow_trans _ _ _ G01 G2) Gr)|]]].
+    3:{ right. exists (tris ++ [o]). split; [rewrite Hr1, Ho, Ho1, Hox1, <- app_assoc; reflexivity|].
+        cbn [rev]. apply Forall2_app; [exact Hr3|repeat constructor; now apply Gr]. }
+    2:{ apply (lprov_weaken _ _ (([x] ++ []) ++ [])); [intros y Hy; rewrite !app_nil_r in Hy; exact Hy|].
+        exact (lprov_trans _ _ _ _ _ (lprov_trans _ _ _ _ _ P01 P2 G2) Pr Gr). }
+    right.
     pose proof (ext_trans _ _ _ _ He01' (ext_trans _ _ _ _ He2 He')) as He.
     split; [exact Hxd|]. split; [exact (ext_label_some _ _ _ _ _ (ext_trans _ _ _ _ He2 He') Hlx)|].
     split; [exact (ext_drop_dead _ _ _ _ Hxd He)|].
@@ -92,6 +120,31 @@ Proof.
     + apply Forall_app. split; [exact Hr2|]. constructor; [|constructor]. exists i.
       apply (tri_node_ext _ _ [x] i o He'); [|exact Hto].
       intros [<-|[]]. destruct Hto as [_ [Hlo _]]. rewrite (ext_label_some _ _ _ _ _ He2 Hlx) in Hlo. discriminate.
+Qed.
+
+(* the root stays node 0 only if every feature of the loop is mentioned *)
+Lemma add_free_root_nz occ : forall fs root s root' s', root <> 0 ->
+  add_free rc occ fs root s = Some (root', s') -> root' = root.
+Proof.
+  induction fs as [|i r IH]; intros root s root' s' Hr H; cbn [add_free] in H; [now injection H as <- _|].
+  destruct (mem i occ); [exact (IH _ _ _ _ Hr H)|].
+  destruct (Nat.eqb_spec root 0) as [E|_]; [contradiction|].
+  destruct (add_literal_node rc i root s) as [s2|]; [|discriminate]. exact (IH _ _ _ _ Hr H).
+Qed.
+
+Lemma add_free_root0 occ : forall fs s s', Inv (ls_g s) -> sg_alive (ls_g s) 0 = true ->
+  add_free rc occ fs 0 s = Some (0, s') -> forall f, In f fs -> mem f occ = true.
+Proof.
+  induction fs as [|i r IH]; intros s s' HI H0 H f Hf; [destruct Hf|]. cbn [add_free] in H.
+  destruct (mem i occ) eqn:Ei.
+  - destruct Hf as [<-|Hf]; [exact Ei|exact (IH s s' HI H0 H f Hf)].
+  - exfalso. cbn [Nat.eqb] in H.
+    destruct (add_node rc GAnd (ls_g s)) as [x g1] eqn:Ha.
+    destruct (ls_add_edge x 0 (with_g s g1)) as [s1|]; [|discriminate]. cbn [option_map] in H.
+    destruct (add_literal_node rc i x s1) as [s2|]; [|discriminate].
+    pose proof (add_node_fresh rc _ _ _ _ HI Ha) as Hfresh.
+    assert (Hx0 : x <> 0) by (intros ->; unfold sg_alive in H0; rewrite Hfresh in H0; discriminate).
+    pose proof (add_free_root_nz occ r x s2 0 s' Hx0 H). congruence.
 Qed.
 
 (* the root after the free-feature loop has the value of node 0 *)
@@ -111,4 +164,5 @@ Lemma free_result_grow s root' s' : free_result s root' s' -> grow (ls_g s) (ls_
 Proof.
   intros [[-> ->]|[_ [_ [He _]]]]; [apply grow_refl|now apply ext_nil_grow].
 Qed.
+
 End Free.
